@@ -174,6 +174,30 @@ def big(n_syl, n_dot):
     return '혀' + '어' * (n_syl - 2) + '엉' + '.' * n_dot
 
 
+def _single(n):
+    if n <= 3000:
+        return '형' + '.' * n
+    best = max(x for x in range(1, 3001) if n % x == 0)
+    if best >= 2 and n // best <= 70000:
+        return big(best, n // best)
+    return None
+
+
+def push_value(n):
+    """program text that leaves exactly n on top of stack 3: one push, a product of two pushes, or a decrement"""
+    t = _single(n)
+    if t is not None:
+        return t
+    x = int(n ** 0.5)
+    while x > 1:
+        if n % x == 0 and _single(x) and _single(n // x):
+            return '%s %s 하앗...' % (_single(x), _single(n // x))
+        x -= 1
+        if n // x > 3000 * 70000:
+            break
+    return push_value(n + 1) + ' 형. 흣.... 하앙...'
+
+
 def mixed_family():
     parts = {
         'P': '형... 항.', 'Q': '형... 항..', 'E1': big(216, 256) + ' 항.', 'E2': big(1088, 1024) + ' 항..', 'R': '흑 항... 흑...',
